@@ -51,7 +51,7 @@ pub fn search(_obl: &str) -> Vec<Witness> {
     std::panic::set_hook(Box::new(|_| {}));
     let mut found = vec![];
     let n = PIECES.len();
-    for len in 1..=4usize {
+    for len in 1..=(if crate::util::deep() { 5usize } else { 4usize }) {
         let mut idx = vec![0usize; len];
         loop {
             let t: String = idx.iter().map(|&i| PIECES[i]).collect();
